@@ -32,7 +32,8 @@ def ciphers_for(ver, thorough):
     return base
 
 
-def make_settings(ver, cipher, etm=True, rsl="default", macs=None, kx=None, ticket_count=0, padding_cb=None):
+def make_settings(ver, cipher, etm=True, rsl="default", macs=None, kx=None, ticket_count=0, padding_cb=None,
+                  ticket_keys=None, key_shares=None):
     kw = dict(minv=ver, maxv=ver, cipherNames=[cipher], useEncryptThenMAC=bool(etm))
     s = lab.settings(**kw)
     if macs is not None:
@@ -45,27 +46,65 @@ def make_settings(ver, cipher, etm=True, rsl="default", macs=None, kx=None, tick
         s.record_size_limit = rsl
     s.ticket_count = ticket_count
     s.padding_cb = padding_cb
+    if ticket_keys is not None:
+        s.ticketKeys = [bytearray(k) for k in ticket_keys]
+    if key_shares is not None:
+        s.keyShares = list(key_shares)
     return s
 
 
+TICKET_KEY = bytes(range(32))
+
+
 def connect(cfg):
-    """cfg: dict(ver, cipher, etm, rsl=(client, server) with 'default'/None/int, cred, macs, kx).
+    """cfg: dict(ver, cipher, etm, rsl=(client, server) with 'default'/None/int, cred, macs, kx, and optionally
+    client_cert / req_cert, hrr (TLS 1.3 client offers no key share: HelloRetryRequest), resume in
+    {'id', 'ticket', 'psk'} (a full handshake first, then the returned lab is the RESUMED connection;
+    the first one is kept as L.first)).
     Returns the lab after the handshake (check L.client.state / L.server.state)."""
     rc, rs = cfg.get("rsl", ("default", "default"))
     cbs = cfg.get("padding_cbs", (None, None))
-    cs = make_settings(cfg["ver"], cfg["cipher"], cfg.get("etm", True), rc, cfg.get("macs"), cfg.get("kx"),
-                       padding_cb=cbs[0])
-    ss = make_settings(cfg["ver"], cfg["cipher"], cfg.get("etm", True), rs, cfg.get("macs"), cfg.get("kx"),
-                       padding_cb=cbs[1])
+    resume = cfg.get("resume")
+    tkeys = [TICKET_KEY] if resume in ("ticket", "psk") else None
+    tcount = 1 if resume in ("ticket", "psk") else 0
+
+    def sets():
+        cs = make_settings(cfg["ver"], cfg["cipher"], cfg.get("etm", True), rc, cfg.get("macs"), cfg.get("kx"),
+                           padding_cb=cbs[0], key_shares=[] if cfg.get("hrr") else None)
+        ss = make_settings(cfg["ver"], cfg["cipher"], cfg.get("etm", True), rs, cfg.get("macs"), cfg.get("kx"),
+                           padding_cb=cbs[1], ticket_keys=tkeys, ticket_count=tcount)
+        return cs, ss
     ckw, skw = {}, {}
     if cfg.get("client_cert"):
         chain, key = lab.creds("client_rsa")
         ckw = dict(certChain=chain, privateKey=key)
     if cfg.get("req_cert"):
         skw = dict(reqCert=True)
+    first = None
+    if resume:
+        from tlslite.sessioncache import SessionCache
+        if resume == "id":
+            skw["sessionCache"] = SessionCache()
+        cs, ss = sets()
+        first = lab.handshake(cs, ss, cred=cfg.get("cred", "rsa"), client_kw=dict(ckw), server_kw=dict(skw))
+        if first.client.state != "done" or first.server.state != "done":
+            return first
+        drain_post_handshake(first)          # TLS 1.3: the client picks up the NewSessionTicket
+        ckw["session"] = first.client.conn.session
+    cs, ss = sets()
     L = lab.handshake(cs, ss, cred=cfg.get("cred", "rsa"), client_kw=ckw, server_kw=skw,
                       before_run=cfg.get("before_run"))
+    L.first = first
     return L
+
+
+def went_through_hrr(L):
+    """two ClientHello records in the clear on the wire"""
+    n = 0
+    for (t, v, b) in L.link.records("c2s"):
+        if t == 22 and b[:1] == b"\x01":
+            n += 1
+    return n >= 2
 
 
 def drain_post_handshake(L):
